@@ -15,6 +15,9 @@
     wsNorm_absorbs strip_only_whitespace_global_partial wsNorm_commutes_with_escape
     cache_unobservable_markup_attrs ser_is_map_emit_markup_attrs markup_attr_key_collision_witness
     markup_attrs_conservative
+    flat_cache_inv_initial flat_cache_inv_preserved flat_cache_inv flat_cache_entry_bindings_only
+    flatten_cache_irrelevant_full flatten_cached_is_xml_flatten flat_cache_stale_entry_violates_inv
+    flat_cache_typed_key_collision_witness
 -/
 import Genshi.Lemmas.Output
 import Genshi.Lemmas.OutputFlatten
@@ -23,6 +26,7 @@ import Genshi.Lemmas.OutputWsDoctype
 import Genshi.Lemmas.OutputWsGlobal
 import Genshi.Lemmas.OutputSafeText
 import Genshi.Lemmas.OutputMarkupAttr
+import Genshi.Lemmas.OutputFlattenCacheC
 import Genshi.Model.OutputPipeline
 namespace Genshi.Props.C09
 open Genshi Genshi.Output
@@ -157,6 +161,105 @@ theorem markup_attr_key_collision_witness :
 
 example : (loopT .xml {} true {} exTyped).flatten =
     "<a t=\"x&y\"></a><a t=\"x&amp;y\"></a>".toList := by decide
+
+/-! ### `NamespaceFlattener` with its START/EMPTY cache on the FULL namespace model
+
+  `Xml.cstep` / `Xml.cflatten` (Model/OutputFlattenCache.lean) put the filter's private cache — hit
+  only when the cache is on, nothing is pending and no attribute value is a Markup instance; an
+  entry stored only for a tag that wrote no declaration; cleared when a START declares and when an
+  END takes declarations out of scope — on top of property C02's model of the filter
+  (`Xml.flatStep`: bindings, pending requests, open elements, prefix generator), with typed
+  attribute values. -/
+
+/-- the invariant `Xml.CacheOk pref bindings cache`: every entry is what the miss path computes for
+    its key under the bindings now in scope with nothing pending — for every value of the prefix
+    generator's counter and every stack of open elements —, writing no declaration and leaving the
+    bindings alone.  It holds of the empty cache. -/
+theorem flat_cache_inv_initial (pref : List (Str × Str)) (bs : List Xml.Binding) : Xml.CacheOk pref bs [] :=
+  Xml.cacheOk_nil pref bs
+
+/-- Every event preserves the invariant, and under it the step with the cache yields the same
+    events and reaches the same flattener state as the step without (whatever the cache-less
+    run carries in its unused cache component). -/
+theorem flat_cache_inv_preserved (pref : List (Str × Str)) (st : Xml.FSt) (cache cache2 : Xml.Cache)
+    (e : Xml.TXEv) (h : Xml.CacheOk pref st.bindings cache) :
+    (Xml.cstep pref true ⟨st, cache⟩ e).2 = (Xml.cstep pref false ⟨st, cache2⟩ e).2 ∧
+    (Xml.cstep pref true ⟨st, cache⟩ e).1.st = (Xml.cstep pref false ⟨st, cache2⟩ e).1.st ∧
+    Xml.CacheOk pref (Xml.cstep pref true ⟨st, cache⟩ e).1.st.bindings (Xml.cstep pref true ⟨st, cache⟩ e).1.cache :=
+  Xml.cstep_cache pref st cache cache2 e h
+
+/-- hence the invariant holds at every point of every stream -/
+theorem flat_cache_inv (pref : List (Str × Str)) (evs : List Xml.TXEv) :
+    Xml.CacheOk pref (evs.foldl (fun c e => (Xml.cstep pref true c e).1) ⟨Xml.FSt.init, []⟩).st.bindings
+      (evs.foldl (fun c e => (Xml.cstep pref true c e).1) ⟨Xml.FSt.init, []⟩).cache :=
+  Xml.crun_inv pref evs Xml.FSt.init [] (Xml.cacheOk_nil _ _)
+
+/-- why clearing on every change of `bindings` suffices: a start tag that writes no declaration is
+    flattened the same in every state with the same bindings and nothing pending — the prefix
+    generator's counter, the open elements and (redundant) pending requests do not matter — and it
+    leaves bindings and counter as they were -/
+theorem flat_cache_entry_bindings_only (pref : List (Str × Str)) (st : Xml.FSt) (tag : QName) (a : Xml.TAttrs)
+    (h : (Xml.flatStartT pref st tag a).2.2.declared = []) :
+    (Xml.flatStartT pref st tag a).2.2 = ⟨st.bindings, [], st.counter⟩ ∧
+    ∀ st' : Xml.FSt, st'.bindings = st.bindings → st'.pending = [] →
+      Xml.flatStartT pref st' tag a =
+        ((Xml.flatStartT pref st tag a).1, (Xml.flatStartT pref st tag a).2.1, ⟨st.bindings, [], st'.counter⟩) :=
+  Xml.flatStartT_nodecl pref st tag a h
+
+/-- `NamespaceFlattener(prefixes, cache=True)` and `NamespaceFlattener(prefixes, cache=False)` yield
+    the same events, for every preferred-prefix mapping and every stream of events whose
+    attribute values are plain strings or Markup instances — on the full namespace model. -/
+theorem flatten_cache_irrelevant_full (pref : List (Str × Str)) (evs : List Xml.TXEv) :
+    Xml.cflatten pref true evs = Xml.cflatten pref false evs :=
+  Xml.crun_cache pref evs Xml.FSt.init [] [] (Xml.cacheOk_nil _ _)
+
+/-- ... and on events with plain values that is C02's `Xml.flatten`: every theorem of property C02
+    about the flattener's output speaks about the filter as it runs, cache on -/
+theorem flatten_cached_is_xml_flatten (pref : List (Str × Str)) (useCache : Bool) (evs : List Xml.XEv) :
+    Xml.cflatten pref useCache (evs.map Xml.TXEv.ofX) = (Xml.flatten pref evs).map Xml.TFEv.ofF := by
+  cases useCache
+  · exact Xml.crun_false_ofX pref evs Xml.FSt.init []
+  · rw [flatten_cache_irrelevant_full]; exact Xml.crun_false_ofX pref evs Xml.FSt.init []
+
+/-- the same start tag `{u}a` four times: outermost (declares `xmlns="u"`, clears), nested (computed, stored),
+    nested again (HIT), and after both ENDs (the END that drops the declaration cleared the cache:
+    declares again) -/
+def exFlat : List Xml.TXEv :=
+  [.tag false ⟨['u'], ['a']⟩ [], .tag false ⟨['u'], ['a']⟩ [], .tag true ⟨['u'], ['a']⟩ [],
+   .ev (.end_ ⟨['u'], ['a']⟩), .ev (.end_ ⟨['u'], ['a']⟩), .tag true ⟨['u'], ['a']⟩ []]
+
+example : Xml.cflatten Xml.defaultPref true exFlat =
+    [.tag false ['a'] [(['x','m','l','n','s'], (['u'], false))], .tag false ['a'] [], .tag true ['a'] [],
+     .end_ ['a'], .end_ ['a'], .tag true ['a'] [(['x','m','l','n','s'], (['u'], false))]] := by decide
+
+/-- the hit happens: in the state before the third tag the cache answers -/
+example : (Xml.chit true
+    ((exFlat.take 2).foldl (fun c e => (Xml.cstep Xml.defaultPref true c e).1) ⟨Xml.FSt.init, []⟩)
+    false ⟨['u'], ['a']⟩ []).isSome = true := by decide
+
+/-- An entry that survives the END which takes its declaration out of scope breaks the invariant
+    (the mutation "no `cache.clear()` in the END branch"): what was stored for `{u}a` inside the
+    scope of `xmlns="u"` is not what the tag is flattened to outside. -/
+theorem flat_cache_stale_entry_violates_inv :
+    ¬ Xml.CacheOk Xml.defaultPref Xml.FSt.init.bindings [(⟨false, ⟨['u'], ['a']⟩, []⟩, (['a'], []))] := by
+  intro h
+  have := h _ _ List.mem_cons_self Xml.FSt.init rfl rfl
+  revert this
+  decide
+
+/-- a cache layer keyed on `==` alone (before repair 80997eb: no `_cacheable` test) serves a start
+    tag holding a plain value the stored output of the equal Markup value: the entry the old code
+    stored for the Markup twin differs from what the plain twin is flattened to (the types of the
+    values differ, which the serializer's `escape` sees) -/
+theorem flat_cache_typed_key_collision_witness :
+    let aM : Xml.TAttrs := [(⟨[], ['t']⟩, (['x', '&', 'y'], true))]
+    let aP : Xml.TAttrs := [(⟨[], ['t']⟩, (['x', '&', 'y'], false))]
+    Xml.keyOf false ⟨[], ['a']⟩ aM = Xml.keyOf false ⟨[], ['a']⟩ aP ∧
+    (Xml.flatStartT Xml.defaultPref Xml.FSt.init ⟨[], ['a']⟩ aM).2.1 ≠
+      (Xml.flatStartT Xml.defaultPref Xml.FSt.init ⟨[], ['a']⟩ aP).2.1 ∧
+    Xml.cflatten Xml.defaultPref true [.tag false ⟨[], ['a']⟩ aM, .tag false ⟨[], ['a']⟩ aP] =
+      [.tag false ['a'] [(['t'], (['x', '&', 'y'], true))], .tag false ['a'] [(['t'], (['x', '&', 'y'], false))]] := by
+  decide
 
 /-! ### the whole serializer (filters included), on the modelled (lite namespace) domain -/
 
